@@ -489,8 +489,11 @@ def linear_members_branch_free(F, R):
         if v is None:
             continue
         dom, tau, out, m = analyse_view(F, v, Lin)
-        R.ob('S4-branch-free', n, not dom.datadep, 'the recursion has no data-dependent branch' if not dom.datadep else
-             'data-dependent branch in the recursion: %s' % tstr(dom.datadep[0])[:100], v.file)
+        nonlin = [c_ for c_ in dom.complaints if c_[0] == 'L-nonlinear']
+        okb = not dom.datadep and not nonlin
+        R.ob('S4-branch-free', n, okb, 'the recursion has no data-dependent branch' if okb else
+             ('data-dependent branch in the recursion: %s' % tstr(dom.datadep[0])[:100] if dom.datadep else
+              'a non-linear function / predicate of the data in the recursion: %s' % str(nonlin[0][2])[:100]), v.file)
 
 
 def ema_recurrence(F, R, tier):
@@ -670,7 +673,7 @@ def run_c11(F, R, tier):
     Ns = [N for N in (list(range(1, 25)) + [32, 48, 64, 100])] if tier == 'quick' else list(range(1, 129)) + [200, 256, 512]
     K = 60
 
-    def compare(n, ref, Ms=(None,), gammas=(None,), out_atom=None):
+    def compare(n, ref, Ms=(None,), gammas=(None,), out_atom=None, tol=2e-4):
         v = views.get(n)
         if v is None:
             R.violation('K1', n, 'view not found')
@@ -698,8 +701,9 @@ def run_c11(F, R, tier):
                         h = impulse_response(rows, out, K)
                         hr = ref(N, M, g, K)
                         nconf += 1
-                        if not close(h, hr):
-                            i = next(i for i, (a, b) in enumerate(zip(h, hr)) if abs(a - b) > 2e-4 * max(abs(x) for x in hr) + 1e-12)
+                        tol_ = tol(N) if callable(tol) else tol
+                        if not close(h, hr, tol_):
+                            i = next(i for i, (a, b) in enumerate(zip(h, hr)) if abs(a - b) > tol_ * max(abs(x) for x in hr) + 1e-12)
                             bad.append('N=%s%s%s: impulse response differs at step %d (%.6g vs reference %.6g)' % (
                                 N, '' if M is None else ' M=%s' % M, '' if g is None else ' gamma=%s' % g, i, h[i], hr[i]))
         R.ob('K1-impulse', n, not bad and nconf > 0,
@@ -712,7 +716,10 @@ def run_c11(F, R, tier):
     tf = lambda N, M, g, K: ref_supersmoother(N, K, ss_coeffs(N, 8.88442402435, 4.44221201218))
     for n_ in ('TrendFlex', 'ReFlex'):
         if views.get(n_) is not None:
-            compare(n_, tf, out_atom=buffer_by_role(F, views[n_], 'recursive') or '?')
+            # the statement gives these two constants with twelve digits: no slack for 'exact' replacements
+            # (for N < 3 the window of N filter values cannot hold the two previous outputs the recursion needs -- the crate's
+            # convention truncates it there, an effect of order b1, c3 ~ 1e-4: the looser tolerance is kept for those two lengths)
+            compare(n_, tf, out_atom=buffer_by_role(F, views[n_], 'recursive') or '?', tol=lambda N_: 1e-8 if N_ >= 3 else 2e-4)
     # named coefficients that are constructor parameters
     for n, cell, f in (('CyberCycle', 'alpha', lambda N: 2.0 / (N + 1)), ('LaguerreRSI', 'gamma', lambda N: 2.0 / (N + 1))):
         v = views.get(n)
